@@ -50,6 +50,7 @@ type Contract struct {
 	Summary    bool
 	Alias      [][2]string
 	NonNil     []string
+	Trusted    string // non-empty: the contract is not verified by govc (reason / discharging engine); used at call sites only
 	CallReqs   map[string][]Clause // callback parameter name -> ghost preconditions asserted at each call through it
 	Info       *types.Info
 	Line       int
@@ -62,7 +63,7 @@ type ExternAssume struct {
 	Info *types.Info
 }
 
-var kwRe = regexp.MustCompile(`^(func|props|variant|ghost|requires|ensures|invariant|decreases|assigns|safe|summary|alias|nonnil|extern|opt|lemma|assume|callreq)\b`)
+var kwRe = regexp.MustCompile(`^(func|props|variant|ghost|requires|ensures|invariant|decreases|assigns|safe|summary|alias|nonnil|extern|opt|lemma|assume|callreq|trusted)\b`)
 var tagRe = regexp.MustCompile(`^\[([A-Za-z0-9, ]+)\]\s*`)
 var nameRe = regexp.MustCompile(`^([a-zA-Z_][a-zA-Z0-9_\-]*):\s+`)
 
@@ -154,6 +155,12 @@ func (e *Engine) loadContracts(file *ast.File) error {
 				props, _, _ := splitTagName(d.rest)
 				cur.SafeProps = props
 			case "summary":
+				cur.Summary = true
+			case "trusted":
+				cur.Trusted = d.rest
+				if cur.Trusted == "" {
+					cur.Trusted = "trusted"
+				}
 				cur.Summary = true
 			case "alias":
 				p := strings.Fields(d.rest)
